@@ -143,6 +143,10 @@ pub fn boundary_pool(full: bool) -> Vec<Value> {
     // large values: anything that abridges, truncates or pages an operand or an error payload shows only on these
     p.push(Value::String("x".repeat(300)));
     p.push(Value::String(format!("a{}", "é日😀".repeat(60))));
+    // multi-byte characters straddling the byte offsets 64 / 128 / 256 (a cut at a fixed byte length lands inside one)
+    p.push(Value::String(format!("a{}", "é".repeat(200))));
+    p.push(Value::String("日".repeat(120)));
+    p.push(Value::String(format!("ab{}", "😀".repeat(80))));
     p.push(Value::Vec((0..40).map(Value::Int).collect()));
     p.push(Value::Map((0..40).map(|i| (format!("k{:02}", i), Value::Int(i))).collect()));
     if full {
